@@ -92,13 +92,14 @@ def C20_main_statement : Prop := DeadlockFreeFor Kind.all
 /-- rank of the lock classes that orders the acyclic sub-table -/
 def rankCls : Cls → Nat
   | .tracker => 0 | .channels => 1 | .slot => 2 | .nodeState => 3 | .monitor => 4
-  | .monitorDecode => 5 | .validatorFactory => 6 | .store => 7
+  | .monitorDecode => 5 | .validatorFactory => 6 | .store => 7 | .approver => 8
 
 /-- the request kinds whose rows are rank-increasing in the current table -/
 def subKinds : List Kind :=
   [.channel_request, .channel_base_request, .forget_channel, .channel_balance, .chaninfo,
    .check_onchain_tx, .unchecked_sign_onchain_tx, .new_channel, .setup_channel, .get_heartbeat,
-   .add_invoice, .add_keysend, .add_allowlist, .set_allowlist, .remove_allowlist]
+   .add_invoice, .add_keysend, .add_allowlist, .set_allowlist, .remove_allowlist,
+   .sign_bolt11_invoice, .has_payment]
 
 /-- generated-table obligation: every edge of every row of the sub-table increases the rank -/
 theorem C20_subtable_acyclic : ∀ k ∈ subKinds, ∀ e ∈ edges k, rankCls e.1 < rankCls e.2 := by
@@ -115,6 +116,224 @@ theorem C20_partial : DeadlockFreeFor subKinds := by
       obtain ⟨k, hk, hc, he⟩ := hconf r hr
       exact ordered_of_edges _ r [] (fun e hmem => C20_subtable_acyclic k hk _ (hc e hmem)) he) n s hs
   exact ⟨h.1, h.2.1⟩
+
+/-! ### Census of the protocol front end: every arm of handler.rs
+
+`Gen.LockTable.arms` lists, for EVERY `Message::X` arm of the three `do_handle` functions of
+vls-protocol-signer/src/handler.rs (InitHandler, RootHandler, ChannelHandler), for the other `self` methods
+of handler.rs, for the approver entry points it calls and for the Node API no arm calls, the
+held-while-acquiring edges of the program (closure literals of `with_channel` bound to the slot section,
+helper functions and `tracker.add_block/remove_block/block_chunk/abort_streamed_block` followed into
+tracker.rs and the monitors).  The extraction fails closed on an arm it cannot split, a `node.<f>` that is
+not in node.rs, a `with_channel` without a closure literal, an unclassified `.lock()` receiver, and on a lock
+acquisition in any function that no program reaches (except `unreachedSites`). -/
+
+/-- an edge list respects the class rank -/
+def rankOk (es : List (Cls × Cls)) : Bool := es.all (fun e => decide (rankCls e.1 < rankCls e.2))
+
+/-- names of the front-end programs whose edges do not all increase the rank -/
+def cyclicArms : List String := (arms.filter (fun a => !rankOk a.2)).map (·.1)
+
+/-- generated-table obligation (census): the ONLY front-end programs that do not respect the lock order
+are the three block arms of the root handler (known finding slot ↔ monitor) and the maintenance API
+`Node::persist_all` (finding F11d: it holds node_state while taking the channel map, the slots and the
+tracker; no caller inside the repository) -/
+theorem C20_handler_census_names :
+    cyclicArms = ["Root.AddBlock", "Root.RemoveBlock", "Root.BlockChunk", "Node.persist_all"] := by rfl
+
+/-- the row of `Node::persist_all` as it is today (finding F11d) -/
+def persistAllRow : List (Cls × Cls) :=
+  [(.tracker, .store), (.channels, .slot), (.channels, .store), (.slot, .store),
+   (.nodeState, .tracker), (.nodeState, .channels), (.nodeState, .slot), (.nodeState, .store)]
+
+/-- generated-table obligation (census): every front-end program either acquires locks in rank order, or
+all its edges are edges of the `add_block` / `remove_block` rows (the listed known-finding cycle), or it is
+the `persist_all` row (F11d) -/
+theorem C20_handler_census :
+    ∀ a ∈ arms, (∀ e ∈ a.2, rankCls e.1 < rankCls e.2) ∨
+      (∀ e ∈ a.2, e ∈ edges .add_block ∨ e ∈ edges .remove_block) ∨ a.2 = persistAllRow := by
+  decide +kernel
+
+/-- generated-table obligation (site census): the functions that contain a lock acquisition and are reached
+by no request program are exactly the reviewed constructors / restore code / test-only accessors -/
+theorem C20_site_census :
+    unreachedSites = ["monitor::add_funding", "monitor::closing_depth", "monitor::funding_depth",
+      "monitor::funding_double_spent_depth", "monitor::new_from_persistence", "node::maybe_sync_persister",
+      "node::new_from_persistence", "node::restore_node", "provider::new"] := by rfl
+
+/-- generated-table obligation: every lock order that a comment of the sources documents (`lock order:
+tracker -> channels -> channel -> node state`, `tracker before channels`, monitor.rs "after `self.state`") is
+strictly increasing in the rank that orders the table: documentation, code and proof agree on ONE order
+(a comment about a lock order that the extractor cannot read fails the extraction) -/
+theorem C20_documented_orders_respect_rank :
+    documentedOrders.length ≥ 5 ∧
+    ∀ d ∈ documentedOrders, (d.2.zip d.2.tail).all (fun p => decide (rankCls p.1 < rankCls p.2)) = true := by
+  decide +kernel
+
+/-- a concrete request conforms to a row of edges -/
+def ConformsRow (row : List (Cls × Cls)) (r : List (Ev Lock)) : Prop :=
+  (∀ e ∈ edgesOf [] r, (e.1.cls, e.2.cls) ∈ row) ∧ endsEmpty [] r = true
+
+instance (row : List (Cls × Cls)) (r : List (Ev Lock)) : Decidable (ConformsRow row r) := by
+  unfold ConformsRow; infer_instance
+
+/-- deadlock freedom + termination for any number of concurrent requests each conforming to one of `rows` -/
+def DeadlockFreeForRows (rows : List (List (Cls × Cls))) : Prop :=
+  ∀ reqs : List (List (Ev Lock)), (∀ r ∈ reqs, ∃ row ∈ rows, ConformsRow row r) →
+    ∀ n s, Steps n (mkState reqs) s →
+      n ≤ measure (mkState reqs) ∧ (allDone s ∨ ∃ s', Step s s')
+
+theorem deadlockFreeForRows_of_rank (rows : List (List (Cls × Cls)))
+    (h : ∀ row ∈ rows, ∀ e ∈ row, rankCls e.1 < rankCls e.2) : DeadlockFreeForRows rows := by
+  intro reqs hconf n s hs
+  have h' := Locks_order_deadlock_free (L := Lock) (fun a b => rankCls a.cls < rankCls b.cls)
+    (fun _ => Nat.lt_irrefl _) (fun _ _ _ => Nat.lt_trans) reqs (by
+      intro r hr
+      obtain ⟨row, hrow, hc, he⟩ := hconf r hr
+      exact ordered_of_edges _ r [] (fun e hmem => h row hrow _ (hc e hmem)) he) n s hs
+  exact ⟨h'.1, h'.2.1⟩
+
+/-- the rows of all front-end programs that respect the rank, together with the node-level rows of `subKinds` -/
+def orderedRows : List (List (Cls × Cls)) :=
+  (arms.filter (fun a => rankOk a.2)).map (·.2) ++ subKinds.map edges
+
+/-- **C20 (partial, protocol level).**  Any number of concurrent protocol requests — any `Message` arm of the
+Init/Root/Channel handlers except AddBlock / RemoveBlock / BlockChunk, any approver call, any other scanned
+API — on any channels, under any schedule: no reachable state is stuck and every execution is bounded. -/
+theorem C20_handler_partial : DeadlockFreeForRows orderedRows :=
+  deadlockFreeForRows_of_rank _ (by decide +kernel)
+
+/-- the order discipline composes: a request that respects it and ends holding nothing, followed by another
+such request, is again such a request -/
+theorem ordered_append {L : Type} [DecidableEq L] (lt : L → L → Prop) :
+    ∀ (r1 r2 : List (Ev L)) (held : List L), Ordered lt held r1 → Ordered lt [] r2 →
+      Ordered lt held (r1 ++ r2) := by
+  intro r1
+  induction r1 with
+  | nil =>
+    intro r2 held h1 h2
+    simp only [Ordered] at h1
+    subst h1
+    simpa using h2
+  | cons e r ih =>
+    intro r2 held h1 h2
+    cases e with
+    | acq l =>
+      simp only [List.cons_append, Ordered] at h1 ⊢
+      exact ⟨h1.1, ih r2 (l :: held) h1.2 h2⟩
+    | rel l =>
+      simp only [List.cons_append, Ordered] at h1 ⊢
+      exact ih r2 (held.erase l) h1 h2
+
+theorem ordered_flatten {L : Type} [DecidableEq L] (lt : L → L → Prop) :
+    ∀ (rs : List (List (Ev L))), (∀ r ∈ rs, Ordered lt [] r) → Ordered lt [] rs.flatten := by
+  intro rs
+  induction rs with
+  | nil => intro _; simp [Ordered]
+  | cons r rs ih =>
+    intro h
+    simp only [List.flatten_cons]
+    exact ordered_append lt r rs.flatten [] (h r (List.mem_cons_self ..))
+      (ih (fun r' hr' => h r' (List.mem_cons_of_mem _ hr')))
+
+/-- **C20 (partial, sessions).**  Every thread is a SESSION: it issues any finite sequence of protocol requests
+one after the other (a connection handler), each conforming to one of the rank-respecting rows
+(`orderedRows`: every handler arm except AddBlock / RemoveBlock / BlockChunk, every approver / API program except
+`persist_all`, every node-level kind of `subKinds`).  Any number of concurrent sessions, any schedule: no
+reachable state is stuck, every session completes within the total number of lock events. -/
+theorem C20_handler_partial_sessions (sessions : List (List (List (Ev Lock))))
+    (hconf : ∀ sess ∈ sessions, ∀ r ∈ sess, ∃ row ∈ orderedRows, ConformsRow row r) :
+    ∀ n s, Steps n (mkState (sessions.map List.flatten)) s →
+      n ≤ measure (mkState (sessions.map List.flatten)) ∧ (allDone s ∨ ∃ s', Step s s') := by
+  intro n s hs
+  have hrank : ∀ row ∈ orderedRows, ∀ e ∈ row, rankCls e.1 < rankCls e.2 := by decide +kernel
+  have h' := Locks_order_deadlock_free (L := Lock) (fun a b => rankCls a.cls < rankCls b.cls)
+    (fun _ => Nat.lt_irrefl _) (fun _ _ _ => Nat.lt_trans) (sessions.map List.flatten) (by
+      intro r hr
+      obtain ⟨sess, hsess, rfl⟩ := List.mem_map.mp hr
+      apply ordered_flatten
+      intro q hq
+      obtain ⟨row, hrow, hc, he⟩ := hconf sess hsess q hq
+      exact ordered_of_edges _ q [] (fun e hmem => hrank row hrow _ (hc e hmem)) he) n s hs
+  exact ⟨h'.1, h'.2.1⟩
+
+/-- non-vacuity of `C20_handler_partial_sessions`: a session of two channel requests on channels 0 and 1
+followed by a keysend approval, each conforming to its row of `subKinds` (⊆ `orderedRows`) -/
+example : ∀ r ∈ [instPath 0 (path .channel_request), instPath 1 (path .channel_request),
+                 instPath 0 (path .add_keysend)],
+    ∃ row ∈ orderedRows, ConformsRow row r := by decide +kernel
+
+/-- the generated canonical path of every rank-respecting front-end program (instantiated at channel 0)
+conforms to its own row and ends holding nothing: the hypotheses of `C20_handler_partial` are satisfiable by
+each of them (non-vacuity), and `armPaths` is consistent with `arms` -/
+theorem C20_arm_paths_conform :
+    arms.length = armPaths.length ∧
+    ∀ p ∈ arms.zip armPaths, rankOk p.1.2 = true → ConformsRow p.1.2 (instPath 0 p.2.2) := by
+  decide +kernel
+
+/-- generated-table obligation (two extraction paths agree): the rows of the 25 ChannelHandler arms — extracted
+with the closure literal of each `with_channel` call bound to the slot section — only REFINE the node-level rows
+(`channel_request` = union over every Channel method, `channel_base_request`, `setup_channel`), which are validated
+against the lock traces of the real code: no arm row has an edge that the trace-validated rows lack -/
+theorem C20_channel_arm_rows_refine_kind_rows :
+    ((arms.drop 42).take 25).length = 25 ∧
+    ∀ a ∈ (arms.drop 42).take 25, ∀ e ∈ a.2,
+      e ∈ edges .channel_request ∨ e ∈ edges .channel_base_request ∨ e ∈ edges .setup_channel := by
+  decide +kernel
+
+/-- generated-table obligation: no front-end program has a held-while-acquiring edge that is unknown at the node
+level — every edge of every arm / API program is an edge of some node-level kind (whose rows are validated against
+the traces) -/
+theorem C20_arm_edges_known_at_node_level :
+    ∀ a ∈ arms, ∀ e ∈ a.2, ∃ k ∈ Kind.all, e ∈ edges k := by
+  decide +kernel
+
+/-- … and position 42–66 of `arms` are exactly the ChannelHandler arms -/
+theorem C20_channel_arms_positions :
+    ((arms.drop 42).take 25).map (·.1) =
+      ["Channel.Memleak", "Channel.CheckFutureSecret", "Channel.Ecdh", "Channel.GetPerCommitmentPoint",
+       "Channel.GetPerCommitmentPoint2", "Channel.SetupChannel", "Channel.CheckOutpoint", "Channel.LockOutpoint",
+       "Channel.SignRemoteHtlcTx", "Channel.SignLocalHtlcTx2", "Channel.SignRemoteCommitmentTx",
+       "Channel.SignRemoteCommitmentTx2", "Channel.SignDelayedPaymentToUs", "Channel.SignRemoteHtlcToUs",
+       "Channel.SignLocalHtlcTx", "Channel.SignMutualCloseTx", "Channel.SignMutualCloseTx2",
+       "Channel.ValidateCommitmentTx", "Channel.ValidateCommitmentTx2", "Channel.RevokeCommitmentTx",
+       "Channel.SignLocalCommitmentTx2", "Channel.ValidateRevocation", "Channel.SignPenaltyToUs",
+       "Channel.SignChannelAnnouncement", "Channel.Unknown"] := by rfl
+
+/-- non-vacuity: at least 40 front-end programs take locks, at least 25 of them nest two of them -/
+example : (armPaths.filter (fun p => p.2.length ≥ 2)).length ≥ 40 ∧
+    (arms.filter (fun a => a.2.length ≥ 1)).length ≥ 25 := by decide +kernel
+
+/-! ### Slot sections of the front-end programs (request-level atomicity)
+
+`Gen.LockTable.armSections`: for every front-end program the `with_channel` / `with_channel_base` sections it
+opens (directly or through helper functions of handler.rs) and, per section, the Channel methods its closure
+literal calls with their receiver mutability (`&mut self` = true), read from channel.rs. -/
+
+/-- number of slot sections of a program whose closure calls a `&mut self` Channel method -/
+def mutSections (secs : List (Bool × List (String × Bool))) : Nat :=
+  (secs.filter (fun s => s.2.any (·.2))).length
+
+/-- generated-table obligation: every front-end program mutates its channel in at most ONE slot section — the
+whole read-modify-write of a request (e.g. validation + revocation of the pre-v5 `ValidateCommitmentTx`) is one
+critical section of `slot i`, which is the strict two-phase hypothesis of `Locks_2pl_serializable` at the level
+of the protocol request — except `Root.SignCommitmentTx`, whose two sections are the two branches of one `if`
+(mutual close vs. holder commitment: one of them runs) -/
+theorem C20_arm_single_writer_section :
+    (armSections.filter (fun a => decide (mutSections a.2 > 1))).map (·.1) = ["Root.SignCommitmentTx"] := by
+  rfl
+
+/-- generated-table obligation: a program whose slot section mutates the channel writes the channel record
+while the slot is held (`(slot, store)` is an edge of the program): the order of the stored records of one
+channel is the order of its slot sections -/
+theorem C20_arm_mutation_persisted_under_slot :
+    armSections.length = arms.length ∧
+    ∀ p ∈ arms.zip armSections, mutSections p.2.2 ≥ 1 → (Cls.slot, Cls.store) ∈ p.1.2 := by
+  decide +kernel
+
+/-- non-vacuity: at least 10 programs have a mutating slot section, at least 25 open a slot section -/
+example : (armSections.filter (fun a => decide (mutSections a.2 ≥ 1))).length ≥ 10 ∧
+    (armSections.filter (fun a => decide (a.2.length ≥ 1))).length ≥ 25 := by decide +kernel
 
 /-! ### Refutation of the full statement for the current table (finding F11) -/
 
@@ -189,6 +408,12 @@ containing a transaction of that channel makes the monitor call the commitment-p
 which locks the slot. -/
 theorem C20_cycle_slot_monitor : ¬ DeadlockFreeFor [.channel_request, .add_block] :=
   not_deadlockFree_of_witness _ _ [0, 0, 0, 0, 0, 0, 0, 1, 1] (by decide +kernel)
+
+/-- finding F11d: `Node::persist_all` holds node_state while it takes the channel map and every slot; a
+channel request holds its slot while it takes node_state.  (The function has no caller inside the repository;
+it is public API "useful if switching to a new persister".) -/
+theorem C20_cycle_persist_all : ¬ DeadlockFreeFor [.channel_request, .persist_all] :=
+  not_deadlockFree_of_witness _ _ ([0, 0, 0, 1, 1, 1, 1] ++ List.replicate 10 0) (by decide +kernel)
 
 /-- **The full statement is false for the current code** (finding F11). -/
 theorem C20_full_false : ¬ C20_main_statement := by
@@ -335,6 +560,49 @@ theorem Locks_2pl_serializable {L D : Type} [DecidableEq L] (mem0 : L → D)
       cases reqs[i]? <;> rfl
     rw [this]
 
+/-- **Safety invariants lift to concurrent histories** (the "in particular C01–C03 hold for concurrent
+histories too" clause, in the lock model with data): let `Inv` be any predicate on the data (e.g. "the
+enforcement counters of every channel satisfy C01–C03", "the ledger never exceeds the approvals") that holds
+initially and is preserved by every request when run alone (sequentially).  Then it holds in the final state of
+EVERY complete interleaved execution of strict two-phase requests — no schedule can break it. -/
+theorem Locks_2pl_invariant_lifts {L D : Type} [DecidableEq L] (mem0 : L → D)
+    (reqs : List (List (DEv L D)))
+    (hstrict : ∀ r ∈ reqs, strict2pl r = true) (hrel : ∀ r ∈ reqs, hasRel r = true)
+    (Inv : (L → D) → Prop) (h0 : Inv mem0)
+    (hstep : ∀ m, ∀ r ∈ reqs, Inv m → Inv (runReq m r)) :
+    ∀ n s, Locks2pl.Steps n (Locks2pl.mkState mem0 reqs) s → Locks2pl.allDone s → Inv s.mem := by
+  intro n s hs hdone
+  obtain ⟨order, _, hmem, heq⟩ := Locks_2pl_serializable mem0 reqs hstrict hrel n s hs hdone
+  have hfun : s.mem = order.foldl (fun m i => runReq m (reqs[i]?.getD [])) mem0 := funext heq
+  rw [hfun]
+  have hall : ∀ i ∈ order, i < reqs.length := fun i hi => (hmem i).mp hi
+  clear hfun heq hmem
+  have gen : ∀ (o : List Nat) (m : L → D), (∀ i ∈ o, i < reqs.length) → Inv m →
+      Inv (o.foldl (fun m i => runReq m (reqs[i]?.getD [])) m) := by
+    intro o
+    induction o with
+    | nil => intro m _ hm; exact hm
+    | cons i is ih =>
+      intro m hlt hm
+      simp only [List.foldl_cons]
+      apply ih
+      · intro j hj; exact hlt j (List.mem_cons_of_mem _ hj)
+      · have hi : i < reqs.length := hlt i (List.mem_cons_self ..)
+        have hget : reqs[i]?.getD [] = reqs[i] := by simp [hi]
+        rw [hget]
+        exact hstep m _ (List.getElem_mem hi) hm
+  exact gen order mem0 hall h0
+
+/-- non-vacuity of `Locks_2pl_invariant_lifts`: two contending ledger requests (+2 and ×3 on cell 9), the
+invariant "cell 9 is even" holds initially and is preserved by each request alone, hence after every complete
+interleaving (here: the one in which thread 1 commits first) -/
+example :
+    let r0 : List (DEv Nat Nat) := [.acq 9, .upd 9 (· + 2), .rel 9]
+    let r1 : List (DEv Nat Nat) := [.acq 9, .upd 9 (· * 3), .rel 9]
+    ((Locks2pl.runSched (Locks2pl.mkState (fun _ => 4) [r0, r1]) [1, 1, 1, 0, 0, 0]).map
+        (fun s => (s.mem 9 % 2, s.threads.all (fun t => t.todo.isEmpty)))) = some (0, true) := by
+  decide +kernel
+
 /-- generated-table obligation tying the code to the hypothesis of `Locks_2pl_serializable`: in every
 Channel method that read-modify-writes the node ledger (claimable_balances / validate_payments ...
 apply_payments) these steps sit in ONE node_state critical section: the node_state events of the
@@ -378,6 +646,122 @@ time read before the lock can be older than the window start left by an overlapp
 subtraction in `VelocityControl::insert` then underflows — finding F25). -/
 theorem C20_velocity_time_under_lock :
     velocityTime.length = 3 ∧ ∀ e ∈ velocityTime, e.2.1 = true ∧ e.2.2.1 = true ∧ e.2.2.2 = true := by
+  decide +kernel
+
+/-! ### Serializability of the EXTRACTED request programs
+
+`Gen.LockTable.progs`: the canonical event path of every node-level kind and every front-end program, each
+critical section flagged "writes the protected data" from the source (`let mut` guard / `&mut` borrow /
+mutating temporary / closure calling a `&mut self` Channel method).  `wproj` is the write projection: a writing
+section `acq c … rel c` becomes `acq c, upd c, … rel c`; a section that does not write is ERASED (a reader only
+restricts the interleavings and never changes the data) — UNLESS the same program later opens a writing section of
+the same class: a read of `c` followed by a write of `c` in another section is the check-then-act shape (stale
+check), so that read section is KEPT and the program is then not strict two-phase. -/
+
+/-- write projection of a generated program (`er` = classes of the currently open erased sections) -/
+def wproj : List Cls → List (Bool × Bool × Cls) → List (DEv Cls Unit)
+  | _, [] => []
+  | er, (true, w, c) :: r =>
+    if w then .acq c :: .upd c id :: wproj er r
+    else if r.any (fun e => e.1 && e.2.1 && e.2.2 == c) then .acq c :: wproj er r
+    else wproj (c :: er) r
+  | er, (false, _, c) :: r =>
+    if er.contains c then wproj (er.erase c) r else .rel c :: wproj er r
+
+/-- the write projections that are strict two-phase transactions (and write at all) -/
+def twoPhasePrograms : List (List (DEv Cls Unit)) :=
+  (progs.map (fun p => wproj [] p.2)).filter (fun q => strict2pl q && hasRel q)
+
+/-- generated-table obligation: the programs whose write projection is NOT one strict two-phase transaction
+are exactly these (each is a sequence of several write transactions: its whole-request atomicity is not
+covered by `C20_programs_serializable` and is validated against all sequential orders by the harness only):
+`forget_channel` (monitor, then ledger, inside the map section; then the tracker), `get_heartbeat` (node_state,
+then tracker), the block kinds/arms (one monitor after the other), the approval arms (`has_payment`, then
+`add_invoice`/`add_keysend`), the withdrawal arms (`check_onchain_tx`, then `unchecked_sign_onchain_tx`) and
+`Root.SignCommitmentTx` (two branches of one `if`, listed sequentially by the scan), and three read-then-write
+programs whose later write section re-validates under the lock: `check_onchain_tx` (fee velocity) and the
+`ValidateCommitmentTx(2)` arms (the validation reads the ledger, the pre-v5 revocation re-validates and applies
+in ONE later section: `C20_ledger_sections_strict2pl`).  Every other program with
+a writing section — every ChannelHandler arm, new_channel, setup_channel, the allowlist and invoice kinds … —
+is a single strict two-phase write transaction. -/
+theorem C20_programs_not_two_phase :
+    (progs.filter (fun p => !(strict2pl (wproj [] p.2)))).map (·.1) =
+      ["kind:forget_channel", "kind:check_onchain_tx", "kind:get_heartbeat", "kind:add_block",
+       "kind:remove_block", "Root.PreapproveInvoice", "Root.PreapproveKeysend", "Root.ForgetChannel",
+       "Root.SignWithdrawal", "Root.SignHtlcTxMingle", "Root.SignCommitmentTx", "Root.AddBlock",
+       "Root.RemoveBlock", "Root.GetHeartbeat", "Root.SignAnchorspend", "Channel.ValidateCommitmentTx",
+       "Channel.ValidateCommitmentTx2", "Handler.fn.sign_withdrawal"] := by
+  rfl
+
+/-- the shape of a concrete request: lock classes, update functions forgotten -/
+def shape {D : Type} : List (DEv Lock D) → List (DEv Cls Unit)
+  | [] => []
+  | .acq l :: r => .acq l.cls :: shape r
+  | .rel l :: r => .rel l.cls :: shape r
+  | .upd l _ :: r => .upd l.cls id :: shape r
+
+theorem onlyRels_shape {D : Type} : ∀ r : List (DEv Lock D), onlyRels (shape r) = onlyRels r
+  | [] => rfl
+  | .acq _ :: _ => rfl
+  | .upd _ _ :: _ => rfl
+  | .rel _ :: r => by simp only [shape, onlyRels]; exact onlyRels_shape r
+
+theorem strict2pl_shape {D : Type} : ∀ r : List (DEv Lock D), strict2pl (shape r) = strict2pl r
+  | [] => rfl
+  | .acq _ :: r => by simp only [shape, strict2pl]; exact strict2pl_shape r
+  | .upd _ _ :: r => by simp only [shape, strict2pl]; exact strict2pl_shape r
+  | .rel _ :: r => by simp only [shape, strict2pl]; exact onlyRels_shape r
+
+theorem hasRel_shape {D : Type} : ∀ r : List (DEv Lock D), hasRel (shape r) = hasRel r
+  | [] => rfl
+  | .acq _ :: r => by simp only [shape, hasRel]; exact hasRel_shape r
+  | .upd _ _ :: r => by simp only [shape, hasRel]; exact hasRel_shape r
+  | .rel _ :: _ => rfl
+
+/-- **Serializability of the extracted programs.**  Any number of concurrent requests, on any channels
+(lock instances) and with any deterministic update functions, each of which has the shape of the write
+projection of one of the generated strict two-phase programs (`twoPhasePrograms`: extracted from the current
+sources, not hand-written): for EVERY complete interleaved execution the final data (every channel, the node
+ledger, the channel map, the tracker, every monitor) equals the data after running all the requests
+sequentially in the order of their first releases. -/
+theorem C20_programs_serializable {D : Type} (mem0 : Lock → D) (reqs : List (List (DEv Lock D)))
+    (hshape : ∀ r ∈ reqs, shape r ∈ twoPhasePrograms) :
+    ∀ n s, Locks2pl.Steps n (Locks2pl.mkState mem0 reqs) s → Locks2pl.allDone s →
+      ∃ order : List Nat, order.Nodup ∧ (∀ i, i ∈ order ↔ i < reqs.length) ∧
+        ∀ l, s.mem l = (order.foldl (fun m i => runReq m (reqs[i]?.getD [])) mem0) l := by
+  have h2 : ∀ r ∈ reqs, strict2pl r = true ∧ hasRel r = true := by
+    intro r hr
+    have hm := hshape r hr
+    unfold twoPhasePrograms at hm
+    have hf := (List.mem_filter.mp hm).2
+    rw [Bool.and_eq_true] at hf
+    exact ⟨by rw [← strict2pl_shape]; exact hf.1, by rw [← hasRel_shape]; exact hf.2⟩
+  exact Locks_2pl_serializable mem0 reqs (fun r hr => (h2 r hr).1) (fun r hr => (h2 r hr).2)
+
+/-- … and so every safety invariant of the data that each such request preserves when run alone (C01–C03 on
+the enforcement state of the channels, the payment ledger bound) holds after every complete concurrent
+execution of requests shaped like the extracted strict two-phase programs -/
+theorem C20_programs_invariant_lifts {D : Type} (mem0 : Lock → D) (reqs : List (List (DEv Lock D)))
+    (hshape : ∀ r ∈ reqs, shape r ∈ twoPhasePrograms)
+    (Inv : (Lock → D) → Prop) (h0 : Inv mem0)
+    (hstep : ∀ m, ∀ r ∈ reqs, Inv m → Inv (runReq m r)) :
+    ∀ n s, Locks2pl.Steps n (Locks2pl.mkState mem0 reqs) s → Locks2pl.allDone s → Inv s.mem := by
+  have h2 : ∀ r ∈ reqs, strict2pl r = true ∧ hasRel r = true := by
+    intro r hr
+    have hm := hshape r hr
+    unfold twoPhasePrograms at hm
+    have hf := (List.mem_filter.mp hm).2
+    rw [Bool.and_eq_true] at hf
+    exact ⟨by rw [← strict2pl_shape]; exact hf.1, by rw [← hasRel_shape]; exact hf.2⟩
+  exact Locks_2pl_invariant_lifts mem0 reqs (fun r hr => (h2 r hr).1) (fun r hr => (h2 r hr).2) Inv h0 hstep
+
+/-- non-vacuity of `C20_programs_serializable`: at least 30 generated programs are strict two-phase write
+transactions, among them the nested pattern "slot, then the node ledger inside it" of the commitment arms
+(SignRemoteCommitmentTx2 / ValidateCommitmentTx2 / RevokeCommitmentTx) -/
+example : twoPhasePrograms.length ≥ 30 ∧
+    [(0, Cls.slot), (2, .slot), (0, .nodeState), (2, .nodeState), (1, .nodeState), (1, .slot)]
+      ∈ twoPhasePrograms.map (fun q => q.map (fun e => match e with
+          | .acq c => (0, c) | .rel c => (1, c) | .upd c _ => (2, c))) := by
   decide +kernel
 
 /-- non-vacuity: a commitment-update-like request (slot 0, then the node ledger 9, both held to the
